@@ -18,6 +18,9 @@ from .engine import ContinueSignal, BreakSignal, ReturnSignal, to_bool_term, Fra
 from .lib import (seq_len, intterm, real, box, unbox, ekind_of, PV, mrows, mcols, iat, ilen)
 
 
+from .smt import bound
+
+
 class Domain:
     def __init__(self, n=None, elem=None, items=None, arm_seq=None, desc=''):
         self.n = n              # z3 Int (symbolic length) or None when concrete
@@ -207,10 +210,14 @@ def summarise(run, dom, body, where='', collect=False, parallel=None):
         ok = False
         if isinstance(o0, MapO) and keyterm is not None and not o0.cols and z3.eq(o0.keys, T.aempty):
             # a dict built by inserting the iterated keys one by one, in order
-            ok = all(isinstance(st1.heap[loc], MapO) and
-                     z3.eq(z3.simplify(st1.heap[loc].keys), z3.simplify(T.aappend(T.aempty, keyterm)))
-                     for _, _, st1, _, _ in ends)
-            cs = [tuple(sorted(st1.heap[loc].cols)) for _, _, st1, _, _ in ends]
+            # every iteration either inserts its own key or leaves the dict alone
+            ins = [z3.eq(z3.simplify(st1.heap[loc].keys), z3.simplify(T.aappend(T.aempty, keyterm)))
+                   for _, _, st1, _, _ in ends]
+            same = [st1.heap[loc] is o0 or (not st1.heap[loc].cols and z3.eq(st1.heap[loc].keys, T.aempty))
+                    for _, _, st1, _, _ in ends]
+            ok = all(isinstance(st1.heap[loc], MapO) for _, _, st1, _, _ in ends) and \
+                all(a or b for a, b in zip(ins, same))
+            cs = [tuple(sorted(st1.heap[loc].cols)) for (_, _, st1, _, _), a in zip(ends, ins) if a]
             if ok and len(set(cs)) == 1:
                 indexed[loc] = set(cs[0])
                 built.add(loc)
@@ -267,12 +274,12 @@ def summarise(run, dom, body, where='', collect=False, parallel=None):
         run.emit('loop.distinct', g, where)
         run.st.assume(g)
         sti.assume(g)
-    a_ = z3.Const('a!loop', Arm)
+    a_ = bound('a', Arm)
     for loc, cols in indexed.items():
         o0 = st0.heap[loc]
         if cols == 'list':
             mixed = fresh('other_iters', o0.elems.sort())
-            j = z3.Int('j!loop')
+            j = bound('j', Int)
             sti.heap[loc] = SymListO(o0.length, z3.Lambda([j], z3.If(j == ik, o0.elems[j], mixed[j])), o0.ekind)
             continue
         nm = o0
@@ -349,7 +356,7 @@ def summarise(run, dom, body, where='', collect=False, parallel=None):
     log_end = len(smt.FRESH_LOG)
 
     # ---- generalise the iteration
-    i_ = z3.Int('i!loop')
+    i_ = bound('i', Int)
     body_consts = [c for c in smt.FRESH_LOG[log_start:log_end]]
     subs = [(ik, i_)]
     for c in body_consts:
@@ -359,7 +366,11 @@ def summarise(run, dom, body, where='', collect=False, parallel=None):
             continue
         subs.append((c, f(i_)))
 
-    def gen(t, at=None):
+    def gen(t, at=None, key=None):
+        """t with the iteration index generalised; at: index term to read it at; key: when reading at the
+        iteration of arm `key`, the iterated element is that arm itself."""
+        if key is not None and keyterm is not None:
+            t = z3.substitute(t, (keyterm, key))
         r = z3.substitute(t, *subs)
         if at is not None:
             r = z3.substitute(r, (i_, at))
@@ -405,7 +416,7 @@ def summarise(run, dom, body, where='', collect=False, parallel=None):
         o0 = st0.heap[loc]
         if cols == 'list':
             v = merged(lambda st1, env1: st1.heap[loc].elems[ik])
-            j = z3.Int('j!loop')
+            j = bound('j', Int)
             ek = o0.ekind
             for (_, _, st1, _, _) in normal:
                 if st1.heap[loc].ekind not in (None, 'none'):
@@ -415,17 +426,41 @@ def summarise(run, dom, body, where='', collect=False, parallel=None):
             continue
         nm = o0
         if loc in built:
-            o1 = normal[0][2].heap[loc]
-            nm = MapO(dom.arm_seq, {}, o1.vkinds, o1.record_cls)
+            inserting = [(k, e) for k, e in enumerate(normal) if e[2].heap[loc].cols]
+            if not inserting:
+                continue
+            o1 = inserting[0][1][2].heap[loc]
+            if len(inserting) == len(normal):
+                newkeys = dom.arm_seq
+            else:
+                # keys: the iterated arms whose iteration inserted, in order (sub-sequence)
+                newkeys = fresh('inserted', ASeq)
+                Bins = z3.Or(*[nguards[k][0] for k, _ in inserting])
+                b_ = bound('b', Arm)
+                sq = dom.arm_seq
+                post.assume(z3.ForAll([a_], T.amem(newkeys, a_) == z3.And(T.amem(sq, a_), gen(Bins, T.apos(sq, a_), a_)),
+                                      patterns=[T.amem(newkeys, a_), T.amem(sq, a_)]))
+                post.assume(T.adistinct(newkeys))
+                post.assume(T.alen(newkeys) <= T.alen(sq))
+                post.assume(z3.ForAll([a_, b_], z3.Implies(z3.And(T.amem(newkeys, a_), T.amem(newkeys, b_)),
+                                                           (T.apos(newkeys, a_) < T.apos(newkeys, b_)) ==
+                                                           (T.apos(sq, a_) < T.apos(sq, b_))),
+                                      patterns=[z3.MultiPattern(T.apos(newkeys, a_), T.apos(newkeys, b_))]))
+            nm = MapO(newkeys, {}, o1.vkinds, o1.record_cls)
             for c in cols:
-                v = merged(lambda st1, env1: st1.heap[loc].cols[c][keyterm])
-                nm.cols[c] = z3.Lambda([a_], gen(v, T.apos(dom.arm_seq, a_)))
+                terms = [(st1.heap[loc].cols[c][keyterm] if st1.heap[loc].cols else None) for (_, _, st1, _, _) in normal]
+                dflt = [t for t in terms if t is not None][0]
+                terms = [t if t is not None else dflt for t in terms]
+                v = terms[-1]
+                for (B, _), t in zip(reversed(nguards[:-1]), reversed(terms[:-1])):
+                    v = z3.If(B, t, v)
+                nm.cols[c] = z3.Lambda([a_], gen(v, T.apos(dom.arm_seq, a_), a_))
             post.heap[loc] = nm
             post.written.add((loc, '*'))
             continue
         for c in cols:
             v = merged(lambda st1, env1: st1.heap[loc].cols[c][keyterm])
-            arr = z3.Lambda([a_], z3.If(T.amem(dom.arm_seq, a_), gen(v, T.apos(dom.arm_seq, a_)), o0.cols[c][a_]))
+            arr = z3.Lambda([a_], z3.If(T.amem(dom.arm_seq, a_), gen(v, T.apos(dom.arm_seq, a_), a_), o0.cols[c][a_]))
             nm = nm.with_col(c, arr)
         post.heap[loc] = nm
         post.written.add((loc, 'vals'))
@@ -459,7 +494,7 @@ def summarise(run, dom, body, where='', collect=False, parallel=None):
         if ccf is not None:
             # conditional update: it(i+1) = g(it(i), args(i)) if c(i) else it(i)
             cnd, g, others = ccf
-            jj = z3.Int('j!it')
+            jj = bound('jit', Int)
             arrs = [z3.Lambda([jj], z3.substitute(o, (ik, jj))) for o in [cnd] + others]
             it_g = F('iterx_if_' + g.name(), init.sort(), Int, *[a.sort() for a in arrs], init.sort())
             post.assume(z3.ForAll([i_], z3.Implies(i_ >= 0, itf(i_) == it_g(init, i_, *arrs)), patterns=[itf(i_)]))
@@ -469,7 +504,7 @@ def summarise(run, dom, body, where='', collect=False, parallel=None):
             # iteration of a function g with per-index arguments: it(i) = iterx_g(init, i, [lambda j. arg_k(j)]...)
             # where iterx_g(s,0,..) = s and iterx_g(s,i+1,A..) = g(iterx_g(s,i,A..), A1[i], ..)   (rule: induction on i)
             g, others = cf
-            jj = z3.Int('j!it')
+            jj = bound('jit', Int)
             arrs = [z3.Lambda([jj], z3.substitute(o, (ik, jj))) for o in others]
             it_g = F('iterx_' + g.name(), init.sort(), Int, *[a.sort() for a in arrs], init.sort())
             post.assume(z3.ForAll([i_], z3.Implies(i_ >= 0, itf(i_) == it_g(init, i_, *arrs)), patterns=[itf(i_)]))
@@ -565,7 +600,7 @@ def _collect(run, dom, normal, nguards, gen, ik, n, merged):
     iv = IdxVals(run, n, normal, nguards, gen)
     if getattr(dom, 'want_idxvals', False):
         return iv
-    j = z3.Int('j!loop')
+    j = bound('j', Int)
     v = iv.at(j)
     if isinstance(v, ArmV):
         r = fresh('comp', ASeq)
@@ -694,8 +729,8 @@ def _filter_comp(run, n, g, dom):
     if not (isinstance(n.elt, ast.Name) and isinstance(g.target, ast.Name) and n.elt.id == g.target.id
             and dom.arm_seq is not None):
         raise Unsupported('filtered comprehension that is not a sub-sequence of arms')
-    a = z3.Const('a!flt', Arm)
-    b = z3.Const('b!flt', Arm)
+    a = bound('aflt', Arm)
+    b = bound('bflt', Arm)
     saved = dict(run.env)
     run.env[g.target.id] = ArmV(a)
     run.spec_mode += 1      # the filter condition is evaluated as a pure predicate of the element
@@ -707,7 +742,7 @@ def _filter_comp(run, n, g, dom):
     P = z3.And(*conds)
     r = fresh('filtered', ASeq)
     s = dom.arm_seq
-    run.st.assume(z3.ForAll([a], T.amem(r, a) == z3.And(T.amem(s, a), P), patterns=[T.amem(r, a)]))
+    run.st.assume(z3.ForAll([a], T.amem(r, a) == z3.And(T.amem(s, a), P), patterns=[T.amem(r, a), T.amem(s, a)]))
     run.st.assume(z3.Implies(T.adistinct(s), T.adistinct(r)))
     Pb = z3.substitute(P, (a, b))
     run.st.assume(z3.ForAll([a, b], z3.Implies(z3.And(T.amem(r, a), T.amem(r, b)),
@@ -762,7 +797,7 @@ def build_map_from_pairs(run, dom, body, where):
         for k in list(run.env):
             if k not in saved:
                 del run.env[k]
-    a_ = z3.Const('a!dc', Arm)
+    a_ = bound('adc', Arm)
     s = dom.arm_seq
     v = iv.at(T.apos(s, a_))
     lib = run.eng.lib
